@@ -132,6 +132,13 @@ def _st_round(draw, max_members, max_topics, max_parts, prev=None):
         for mt in members:
             if draw(st.integers(0, 5)) == 0:
                 mt[1] = draw(st.lists(st.sampled_from(pool), min_size=1, max_size=len(pool), unique=True))
+        # members that sat out one or more rounds come back with the (stale) state they left with
+        gone = [m for m in prev.get("past", {}) if m not in {x[0] for x in members}]
+        if gone and len(members) < max_members and draw(st.integers(0, 2)) > 0:
+            for m in draw(st.lists(st.sampled_from(gone), min_size=1, max_size=min(2, max_members - len(members)), unique=True)):
+                ts = list(prev["past"][m]) if draw(st.integers(0, 3)) > 0 else draw(
+                    st.lists(st.sampled_from(pool), min_size=1, max_size=len(pool), unique=True))
+                members.insert(draw(st.integers(0, len(members))), [m, ts])
         free = [m for m in MEMBER_POOL if m not in {x[0] for x in members}]
         room = max_members - len(members)
         if free and room > 0:
@@ -169,11 +176,51 @@ def _strat(assignors, max_prev):
         nprev = draw(st.integers(0, max_prev)) if a == "sticky" else 0
         rounds = []
         prev = None
+        past = {}
         for _ in range(nprev + 1):
+            if prev is not None:
+                prev = dict(prev, past=dict(past))
             prev = _st_round(draw, *size, prev=prev)
+            prev.pop("past", None)
+            for m, ts in prev["members"]:
+                past[m] = list(ts)
             rounds.append(prev)
-        gen = draw(st.sampled_from(ac.GEN_MODES)) if nprev else "default"
+        gen = draw(st.sampled_from(list(ac.GEN_MODES) + ["positive"])) if nprev else "default"
         return {"a": a, "gen": gen, "rounds": rounds}
+
+    return case()
+
+
+def _strat_absentee():
+    """Sticky histories in which members sit out rounds and come back with stale claims: the same partition is then
+    claimed by several members under different generations (the prev-generation hand-back paths of KIP-341)."""
+    from hypothesis import strategies as st
+
+    @st.composite
+    def case(draw):
+        ntop = draw(st.integers(1, 3))
+        pool = TOPIC_POOL[:ntop]
+        layout = {t: draw(st.integers(1, 5)) for t in pool}
+        nm = draw(st.integers(2, 5))
+        names = MEMBER_POOL[:nm]
+        mode = draw(st.sampled_from(["identical", "free", "free"]))
+        sub = st.lists(st.sampled_from(pool), min_size=1, max_size=len(pool), unique=True)
+        base = draw(sub)
+        subs = {m: (list(base) if mode == "identical" else draw(sub)) for m in names}
+        rounds = []
+        for r in range(draw(st.integers(2, 5))):
+            present = [m for m in names if r == 0 or draw(st.integers(0, 9)) >= 3]
+            if not present:
+                present = [names[draw(st.integers(0, nm - 1))]]
+            if r and draw(st.integers(0, 4)) == 0:
+                t = draw(st.sampled_from(pool))
+                layout = dict(layout)
+                layout[t] = draw(st.integers(1, 6))
+            if r and mode != "identical" and draw(st.integers(0, 3)) == 0:
+                subs = dict(subs)
+                subs[draw(st.sampled_from(names))] = draw(sub)
+            rounds.append({"topics": dict(layout), "members": [[m, list(subs[m])] for m in present]})
+        return {"a": "sticky", "gen": "positive", "rounds": rounds}
 
     return case()
 
@@ -193,6 +240,8 @@ def campaigns(tier):
                        strategy=lambda: _strat(["range", "roundrobin"], 0),
                        examples=40000 if thorough else 4000, shrink_wall=20.0))
     cs.append(Campaign("random_sticky", "hyp", execute=exec_random,
-                       strategy=lambda: _strat(["sticky"], 3),
+                       strategy=lambda: _strat(["sticky"], 4),
                        examples=60000 if thorough else 8000, shrink_wall=20.0))
+    cs.append(Campaign("sticky_absentee", "hyp", execute=exec_random, strategy=_strat_absentee,
+                       examples=60000 if thorough else 6000, shrink_wall=20.0))
     return cs
